@@ -18,6 +18,12 @@
                   reached through `self` (lookup) or, for a bare field name, through the method's captured cells,
                   which are the class-body frame's cells, i.e. the cells of the object's own map.
    lists          Primitive::Vector(Gc<GcCell<Vec>>): a shared location; push through any alias.
+   wrapped refs   GcMap replace / remove (function.rs MapReplace / MapRemove) hand out the previous value of a key as
+                  Primitive::Optional(Some(Box(v))): an object that went through a map comes back WRAPPED (`VSome`).
+                  `get e` (unwrap) takes the wrapper off; nothing else did before fixes/c08-*.diff: `is` compared a
+                  wrapped with an unwrapped reference through Primitive::equals (objects are not comparable there ->
+                  false) and Primitive::lookup answered "does not exist" (exit 1).  `legacy = true` is that behaviour,
+                  `legacy = false` the repaired one (a present optional is the value it holds).
 
    The step function is written once, over an interface of heap primitives (`iface`), and instantiated twice:
    here with the implementation's representation (cells, maps copied into every reference, identity tokens),
@@ -109,7 +115,8 @@ Inductive oop :=
 | ListLen (l : path)                                      (* print l.len() *)
 | PassAndMutate (p : path) (f : fld) (d : lit)            (* bump_C_f(p, d)   where bump_C_f = fn(o: C, d: T) { o.f = o.f + d } *)
 | ReturnSame (dst : var) (p : path)                       (* dst = same_C(p)  where same_C = fn(o: C) -> C { return o } *)
-| IsTest (a b : path).                                    (* print a is b *)
+| IsTest (a b : path)                                     (* print a is b *)
+| ThroughMap (dst : var) (p : path).                      (* dst = thru_C(p)  where thru_C = fn(o: C) -> C? { m = map[str, C] { "k": o }   return m.replace("k", o) } *)
 
 (* the operations the property names *)
 Definition Alias (dst src : var) : oop := Bind dst (PVar src) false.
@@ -138,13 +145,15 @@ Record iface (S V : Type) := {
   i_fwrite : S -> V -> fld -> V -> res S;       (* lookup f; ptr_mut *)
   i_new : S -> cid -> list fld -> res (S * V);  (* class body up to make_object: fresh object, every field nil *)
   i_is : V -> V -> res bool;                    (* bin_op "is" *)
+  i_unwrap : V -> res V;                        (* `get e`: nil is an error, a present optional is its content *)
+  i_wrap : V -> res V;                          (* what map.replace returns for a key that held v: Optional(Some(v)) *)
   i_lnew : S -> list V -> S * V;                (* make_vector *)
   i_lread : S -> V -> res (list V);
   i_lwrite : S -> V -> list V -> res S
 }.
 Arguments i_get {S V}. Arguments i_set {S V}. Arguments i_lit {S V}. Arguments i_scalar {S V}.
 Arguments i_recv {S V}. Arguments i_cls {S V}. Arguments i_fread {S V}. Arguments i_fwrite {S V}. Arguments i_new {S V}.
-Arguments i_is {S V}. Arguments i_lnew {S V}. Arguments i_lread {S V}. Arguments i_lwrite {S V}.
+Arguments i_is {S V}. Arguments i_unwrap {S V}. Arguments i_wrap {S V}. Arguments i_lnew {S V}. Arguments i_lread {S V}. Arguments i_lwrite {S V}.
 
 Section Generic.
 Context {S V : Type} (I : iface S V).
@@ -276,7 +285,7 @@ Definition gstep (ct : ctab) (s : S) (c : oop) : res (S * list oval) :=
   | Bind dst p unwrap =>
     do v <- gpath s p;
     (* `get e`: unwrap of nil is a run-time error *)
-    if unwrap && gisnil v then Fail Err else Ok (i_set I s dst v, [])
+    if unwrap then do u <- i_unwrap I v; Ok (i_set I s dst u, []) else Ok (i_set I s dst v, [])
   | Write p f e =>
     do v <- geval s e; do o <- gpath s p; do s' <- i_fwrite I s o f v; Ok (s', [])
   | OpAssign p f op l =>
@@ -313,6 +322,9 @@ Definition gstep (ct : ctab) (s : S) (c : oop) : res (S * list oval) :=
     do o <- gpath s p; do _ <- i_recv I o; Ok (i_set I s dst o, [])
   | IsTest a b =>
     do x <- gpath s a; do y <- gpath s b; do r <- i_is I x y; Ok (s, [OBool r])
+  | ThroughMap dst p =>
+    (* the object is stored in a map and taken out again with replace: the same object, as a present optional *)
+    do o <- gpath s p; do _ <- i_recv I o; do w <- i_wrap I o; Ok (i_set I s dst w, [])
   end.
 
 (* a history runs until its first failure: the observations printed so far and how it ended *)
@@ -336,7 +348,8 @@ Record oref := { o_cls : cid; o_map : list (fld * cell); o_id : oid }.
 Inductive val :=
 | VInt (z : Z) | VStr (s : str) | VBool (b : bool) | VNil
 | VObj (o : oref)
-| VList (l : lid).
+| VList (l : lid)
+| VSome (o : oref).                   (* Primitive::Optional(Some(Box(Primitive::Object))) *)
 
 Fixpoint aget {A} (h : list (N * A)) (k : N) : option A :=
   match h with
@@ -372,19 +385,37 @@ Definition m_lit (l : lit) : val :=
 Definition m_scalar (v : val) : option lit :=
   match v with
   | VInt z => Some (LInt z) | VStr s => Some (LStr s) | VBool b => Some (LBool b) | VNil => Some LNil
-  | VObj _ | VList _ => None
+  | VObj _ | VList _ | VSome _ => None
   end.
 
+Section Impl.
+Context (legacy : bool).
+
+(* `lookup m` on the receiver of a method call *)
 Definition m_recv (v : val) : res unit :=
-  match v with VObj _ => Ok tt | VNil => Fail Err | _ => Fail Stuck end.
+  match v with
+  | VObj _ => Ok tt
+  | VSome _ => if legacy then Fail Err else Ok tt
+  | VNil => Fail Err
+  | _ => Fail Stuck
+  end.
 
 Definition m_cls (st : state) (v : val) : res cid :=
-  match v with VObj o => Ok (o_cls o) | VNil => Fail Err | _ => Fail Stuck end.
+  match v with
+  | VObj o => Ok (o_cls o)
+  | VSome o => if legacy then Fail Err else Ok (o_cls o)
+  | VNil => Fail Err
+  | _ => Fail Stuck
+  end.
 
 (* Primitive::lookup on an object: the cell its OWN map gives for the name *)
 Definition field_cell (v : val) (f : fld) : res cell :=
   match v with
   | VObj o => match aget (o_map o) f with Some c => Ok c | None => Fail Stuck end
+  | VSome o =>
+    (* before the repair: `ret => Ok(Err(ret))`, "`f` does not exist on <class C>" *)
+    if legacy then Fail Err
+    else match aget (o_map o) f with Some c => Ok c | None => Fail Stuck end
   | VNil => Fail Err
   | _ => Fail Stuck
   end.
@@ -415,13 +446,38 @@ Definition m_new (st : state) (k : cid) (fs : list fld) : res (state * val) :=
            nid := nid st + 1;
            env := env st |}, VObj o).
 
-Definition m_is (a b : val) : res bool :=
+(* runtime_addr_check on two objects / nil *)
+Definition is0 (a b : val) : res bool :=
   match a, b with
   | VObj o1, VObj o2 => Ok (o_id o1 =? o_id o2)
   | VNil, VNil => Ok true
   | VNil, VObj _ | VObj _, VNil => Ok false
   | _, _ => Fail Stuck
   end.
+
+Definition strip (v : val) : val := match v with VSome o => VObj o | _ => v end.
+
+Definition is_ref (v : val) : bool := match v with VObj _ | VSome _ | VNil => true | _ => false end.
+
+(* repaired: a present optional is the value it holds.  Before: a wrapped reference fell through to
+   Primitive::equals, where two objects "cannot be compared" -> unwrap_or(false) *)
+Definition m_is (a b : val) : res bool :=
+  if legacy then
+    match a, b with
+    | VSome _, _ => if is_ref b then Ok false else Fail Stuck
+    | _, VSome _ => if is_ref a then Ok false else Fail Stuck
+    | _, _ => is0 a b
+    end
+  else is0 (strip a) (strip b).
+
+(* the `unwrap` instruction *)
+Definition m_unwrap (v : val) : res val :=
+  match v with VNil => Fail Err | VSome o => Ok (VObj o) | _ => Ok v end.
+
+(* (the argument of thru_C has the non-optional type C, so it is never itself a wrapped reference;
+    for the untyped corner the model keeps a single wrapper) *)
+Definition m_wrap (v : val) : res val :=
+  match v with VObj o | VSome o => Ok (VSome o) | _ => Fail Stuck end.
 
 Definition m_lnew (st : state) (xs : list val) : state * val :=
   ({| cells := cells st; ncell := ncell st; lists := (nlist st, xs) :: lists st; nlist := nlist st + 1;
@@ -443,9 +499,11 @@ Definition m_lwrite (st : state) (v : val) (xs : list val) : res state :=
 
 Definition impl : iface state val :=
   {| i_get := m_get; i_set := m_set; i_lit := m_lit; i_scalar := m_scalar; i_recv := m_recv; i_cls := m_cls;
-     i_fread := m_fread; i_fwrite := m_fwrite; i_new := m_new; i_is := m_is;
+     i_fread := m_fread; i_fwrite := m_fwrite; i_new := m_new; i_is := m_is; i_unwrap := m_unwrap; i_wrap := m_wrap;
      i_lnew := m_lnew; i_lread := m_lread; i_lwrite := m_lwrite |}.
 
-Definition step (ct : ctab) (st : state) (c : oop) : res (state * list oval) := gstep impl ct st c.
+End Impl.
 
-Definition run (ct : ctab) (h : list oop) : list oval * option fail := grun_from impl ct st0 h.
+Definition step (legacy : bool) (ct : ctab) (st : state) (c : oop) : res (state * list oval) := gstep (impl legacy) ct st c.
+
+Definition run (legacy : bool) (ct : ctab) (h : list oop) : list oval * option fail := grun_from (impl legacy) ct st0 h.
